@@ -125,6 +125,15 @@ func debugFunc(P *Program, name string, timeout int, verbose, keep bool, seed in
 		}
 		if show := os.Getenv("GOVC_SHOW"); show != "" && strings.Contains(o.Name, show) {
 			fmt.Printf("  SHOW %s status=%s\n    trail: %s\n    goal: %s\n", o.Name, o.Status, o.Trail, o.ctx.Show(o.Goal))
+			if os.Getenv("GOVC_SHOWPC") != "" {
+				pcs := o.PC
+				if len(o.Alts) > 0 {
+					pcs = o.Alts[0]
+				}
+				for i, p := range pcs {
+					fmt.Printf("    pc[%d]: %s\n", i, o.ctx.Show(p))
+				}
+			}
 		}
 		if verbose || !ok {
 			fmt.Printf("  %-6s %-8s %5dms %s  %v  -- %s\n", map[bool]string{true: "ok", false: "FAIL"}[ok], o.Status, o.TimeMS, o.Name, o.Tags, o.Desc)
